@@ -570,7 +570,9 @@ func (c *dxCall) gateDo(kind string) {
 	case "fail":
 		c.tr.doErr = errors.New("dial tcp: connection refused")
 		op = "AGateDo (DoErr Plain)"
-		c.tainted = true
+		if !c.ctxEnded {
+			c.tainted = true // (once the context has ended, a failing Do is the context's doing: not another cause)
+		}
 	case "status":
 		c.tr.resp.StatusCode, c.tr.resp.Status = 503, "503 Service Unavailable"
 		op = "AGateDo (DoResp (Some (Coded 14)) false)"
